@@ -23,7 +23,7 @@ pub fn property() -> Property {
             "one shared world (server, client, front-ends, targets) per worker thread; cases observe deltas",
             "`localhost` resolves to 127.0.0.1 through the system resolver",
         ],
-        families: vec![(Box::new(SocksFam), 2_500, 40_000)],
+        families: vec![(Box::new(SocksFam), 2_500, 40_000), (Box::new(crate::props::front::FrontFam), 200, 2_000)],
     }
 }
 
